@@ -443,6 +443,8 @@ func checkC12(c *Ctx, r *Report) {
 	// ---- C12.f parameter binding discipline, arms and bit sizes (shared rules with C05)
 	checkEngineParsing(c, r, map[string]string{"a": "C12.f", "b": "C12.f", "c": "C12.f", "d": "C12.f"})
 	checkConversionArms(c, r, "C12.f")
+	// copies of a partial that agreed on the reviewed tree still agree
+	checkPartialPartitions(c, r, "C12.b")
 
 	// ---- C12.g the URL helpers (shared with C02.e)
 	for _, en := range engines {
@@ -518,4 +520,206 @@ func chainedFromCtx(toks []gtok, i int, ctx []string) bool {
 		}
 	}
 	return false
+}
+
+// partialStreams: per partial name, per engine, the Go token stream of the partial (template
+// constructs as placeholders) with the engine's request-context identifiers renamed.
+func partialStreams(c *Ctx) map[string]map[string]string {
+	ctxIdents := map[string]bool{"ginCtx": true, "echoCtx": true, "fiberCtx": true}
+	out := map[string]map[string]string{}
+	for _, en := range c.T.Order {
+		eng := c.T.Engines[en]
+		for pn, t := range eng.Partials {
+			if t == nil {
+				continue
+			}
+			toks := goToks(flattenProgram(t.Prog, nil))
+			var sb strings.Builder
+			for _, tk := range toks {
+				s := tk.String()
+				if tk.Tok == token.IDENT && ctxIdents[tk.Lit] {
+					s = "«ctx»"
+				}
+				sb.WriteString(s)
+				sb.WriteByte(' ')
+			}
+			if out[pn] == nil {
+				out[pn] = map[string]string{}
+			}
+			out[pn][en] = sb.String()
+		}
+	}
+	return out
+}
+
+func partialGroups(c *Ctx) []string {
+	var lines []string
+	tok, shp := currentPartialPartitions(c)
+	jb, _ := json.Marshal(map[string]any{"partial_token_groups": tok, "partial_shape_groups": shp})
+	lines = append(lines, "JSON "+string(jb))
+	ps := partialStreams(c)
+	var names []string
+	for n := range ps {
+		names = append(names, n)
+	}
+	sort.Strings(names)
+	for _, n := range names {
+		groups := map[string][]string{}
+		for en, s := range ps[n] {
+			groups[s] = append(groups[s], en)
+		}
+		var gs []string
+		for _, ens := range groups {
+			sort.Strings(ens)
+			gs = append(gs, strings.Join(ens, "+"))
+		}
+		sort.Strings(gs)
+		lines = append(lines, fmt.Sprintf("%-40s %v", n, gs))
+		sh := map[string][]string{}
+		for _, en := range c.T.Order {
+			sh[partialShape(c, en, n)] = append(sh[partialShape(c, en, n)], en)
+		}
+		for k, v := range sh {
+			lines = append(lines, fmt.Sprintf("      shape %v: %.150s", v, k))
+		}
+	}
+	return lines
+}
+
+// partialShape: an engine-independent profile of a partial's Go text: how many branches,
+// loops, type assertions it has, which non-context identifiers it assigns, which string
+// literals it contains. Framework calls differ between engines; this does not.
+func partialShape(c *Ctx, en, pn string) string {
+	eng := c.T.Engines[en]
+	t := eng.Partials[pn]
+	if t == nil {
+		return ""
+	}
+	ctxIdents := map[string]bool{"ginCtx": true, "echoCtx": true, "fiberCtx": true, "w": true, "req": true}
+	toks := goToks(flattenProgram(t.Prog, nil))
+	nIf, nFor, nSwitch, nAssert := 0, 0, 0, 0
+	assigned := map[string]bool{}
+	lits := map[string]bool{}
+	for i, tk := range toks {
+		switch tk.Tok {
+		case token.IF:
+			nIf++
+		case token.FOR:
+			nFor++
+		case token.SWITCH:
+			nSwitch++
+		case token.STRING:
+			lits[tk.Lit] = true
+		case token.LPAREN:
+			if i > 0 && toks[i-1].Tok == token.PERIOD {
+				nAssert++
+			}
+		case token.ASSIGN, token.DEFINE:
+			for j := i - 1; j >= 0 && (toks[j].Tok == token.IDENT || toks[j].Tok == token.COMMA || toks[j].Tok == token.PERIOD); j-- {
+				if toks[j].Tok == token.IDENT && !ctxIdents[toks[j].Lit] && (j == 0 || toks[j-1].Tok != token.PERIOD) {
+					assigned[toks[j].Lit] = true
+				}
+			}
+		}
+	}
+	return fmt.Sprintf("if=%d for=%d switch=%d assert=%d assigns=%v lits=%v", nIf, nFor, nSwitch, nAssert, keys(assigned), keys(lits))
+}
+
+// partitionOf: engines grouped by equal value.
+func partitionOf(vals map[string]string) [][]string {
+	groups := map[string][]string{}
+	for en, v := range vals {
+		groups[v] = append(groups[v], en)
+	}
+	var out [][]string
+	for _, ens := range groups {
+		sort.Strings(ens)
+		out = append(out, ens)
+	}
+	sort.Slice(out, func(i, j int) bool { return strings.Join(out[i], "+") < strings.Join(out[j], "+") })
+	return out
+}
+
+// currentPartialPartitions: for every partial, which engines have token-identical text (after
+// renaming the request-context identifiers) and which have the same engine-independent shape.
+func currentPartialPartitions(c *Ctx) (tokens, shapes map[string][][]string) {
+	tokens, shapes = map[string][][]string{}, map[string][][]string{}
+	for pn, per := range partialStreams(c) {
+		tokens[pn] = partitionOf(per)
+		sh := map[string]string{}
+		for en := range per {
+			sh[en] = partialShape(c, en, pn)
+		}
+		shapes[pn] = partitionOf(sh)
+	}
+	return
+}
+
+// checkPartialPartitions (C12.b): engines whose copy of a partial was token-identical, or had
+// the same shape (branches, loops, type assertions, assigned names, string literals), on the
+// reviewed tree still agree with each other. An edit made to one copy only - a fix, a
+// feature, a special case - makes that engine answer differently from its siblings.
+func checkPartialPartitions(c *Ctx, r *Report, clause string) {
+	b, err := os.ReadFile(filepath.Join(c.VerifDir, "tables", "partials.json"))
+	if err != nil {
+		r.undecided(clause, "sibling", "partial-partitions", "", err.Error())
+		return
+	}
+	var doc struct {
+		Tok map[string][][]string `json:"partial_token_groups"`
+		Shp map[string][][]string `json:"partial_shape_groups"`
+	}
+	if err := json.Unmarshal(b, &doc); err != nil || len(doc.Tok) == 0 || len(doc.Shp) == 0 {
+		r.undecided(clause, "sibling", "partial-partitions", "", "tables/partials.json has no partial_token_groups / partial_shape_groups")
+		return
+	}
+	tok, shp := currentPartialPartitions(c)
+	streams := partialStreams(c)
+	groupOf := func(part [][]string) map[string]int {
+		m := map[string]int{}
+		for i, g := range part {
+			for _, en := range g {
+				m[en] = i
+			}
+		}
+		return m
+	}
+	var names []string
+	for pn := range doc.Tok {
+		names = append(names, pn)
+	}
+	sort.Strings(names)
+	for _, pn := range names {
+		viol := ""
+		var sites []string
+		for _, en := range c.T.Order {
+			if t := c.T.Engines[en].Partials[pn]; t != nil {
+				sites = append(sites, t.File+":1")
+			}
+		}
+		for _, kind := range []struct {
+			what      string
+			reviewed  [][]string
+			current   [][]string
+			isPresent bool
+		}{{"token-identical", doc.Tok[pn], tok[pn], true}, {"of the same shape", doc.Shp[pn], shp[pn], true}} {
+			cur := groupOf(kind.current)
+			for _, g := range kind.reviewed {
+				for i := 1; i < len(g); i++ {
+					a, b := g[0], g[i]
+					if _, ok := streams[pn][a]; !ok {
+						continue
+					}
+					if _, ok := streams[pn][b]; !ok {
+						continue
+					}
+					if cur[a] != cur[b] && viol == "" {
+						viol = fmt.Sprintf("partial %s: the %s and %s copies were %s on the reviewed tree and no longer are: one engine's copy was edited alone, so for the same route and request that engine now does something its siblings do not (shapes: %s | %s)", pn, a, b, kind.what, partialShape(c, a, pn), partialShape(c, b, pn))
+					}
+				}
+			}
+		}
+		o := r.add(clause, "sibling", "partial-partition:"+pn, "engines that shared this partial's text / shape on the reviewed tree still do", c.T.Order, sites, viol)
+		o.NonTrivial = true
+	}
 }
